@@ -221,14 +221,14 @@ def _mixed_transition_cases(rnd, zs, big):
     out = []
     others = ["UTC"] + FIXED
     for name in zs:
-        for (tt, o_pre, o_post) in T.transition_probes(name, rnd, per_zone=5 if not big else 30):
+        for (tt, o_pre, o_post) in T.transition_probes(name, rnd, per_zone=5 if not big else 15):
             UT = (tt + T.EPOCH_S) * T.MEG
             L = abs(o_post - o_pre) * T.MEG
             a = UT + min(o_pre, o_post) * T.MEG         # the repeated / skipped wall values are [a, a + L)
             if not (T.US_DAY * 800 < a < T.MAX_WALL - T.US_DAY * 800) or L == 0:
                 continue
             gap = o_post > o_pre
-            for rep in range((2 if gap else 5) if not big else (4 if gap else 8)):
+            for rep in range((2 if gap else 5) if not big else (3 if gap else 6)):
                 zb_ = rnd.choice(others if rnd.random() < 0.6 else zs)
                 if repr(zb_) == repr(name):
                     zb_ = "UTC" if name != "UTC" else 3600
